@@ -166,6 +166,7 @@ func rulesC14(p *Prog, r *Report) {
 			}
 		}
 		// calls to product helpers with two recursive results
+		nProd := 0
 		for _, b := range f.Blocks {
 			for _, in := range b.Instrs {
 				c, ok := in.(*ssa.Call)
@@ -180,7 +181,13 @@ func rulesC14(p *Prog, r *Report) {
 					fb := fromRecursive(eng, c.Call.Args[pr.b], map[ssa.Value]bool{})
 					if fa != nil && fb != nil {
 						found = true
-						key := fmt.Sprintf("%s/%s", p.shortKey(f), pr.fn.Name())
+						// keyed by the call site's function, not by the product helper's name: the finding is "this
+						// function multiplies two recursive expansions", however the helper is called or declared
+						nProd++
+						key := fmt.Sprintf("%s/product of two recursive expansions", p.shortKey(f))
+						if nProd > 1 {
+							key += fmt.Sprintf("#%d", nProd)
+						}
 						r.Bad("C1", key, p.pos(c.Pos()), fmt.Sprintf("|result| = |%s(…)| · |%s(…)|: %s builds the full cross product of two recursively expanded operands, so an AND of n two-way ORs materialises 2^n alternatives (a few hundred bytes of input allocate gigabytes)", fa.Name(), fb.Name(), pr.fn.Name()))
 					}
 				}
